@@ -218,6 +218,8 @@ enum Act {
     ConnB,
     SubA,
     SubShareA,
+    /// one SUBSCRIBE naming a path both plainly and through a shared group (two legal, distinct subscriptions on one log)
+    SubPlainAndSharedA,
     PubB(u8),
     PubBUnicode,
     AckA(u16),
@@ -238,7 +240,8 @@ enum Act {
     ConnectThenDropUnserved,
 }
 
-const ACTS: [Act; 27] = [
+const ACTS: [Act; 28] = [
+    Act::SubPlainAndSharedA,
     Act::SubAThenDropUnserved, Act::PubBThenDropUnserved, Act::ConnectThenDropUnserved,
     Act::ConnA(true), Act::ConnA(false), Act::ConnB, Act::SubA, Act::SubShareA, Act::PubB(0), Act::PubB(1), Act::PubB(2),
     Act::PubBUnicode, Act::AckA(1), Act::AckA(7), Act::RecA(1), Act::RelB(1), Act::CompA(1), Act::UnsubA, Act::PingA,
@@ -251,6 +254,7 @@ fn apply(r: &mut Router, a: &mut Option<Client>, b: &mut Option<Client>, act: Ac
         Act::ConnB => *b = connect(r, "b", true).or(b.take()),
         Act::SubA => { if let Some(c) = a { send(r, c, vec![subscribe(1, &[("t/#", 1)])]); } }
         Act::SubShareA => { if let Some(c) = a { send(r, c, vec![subscribe(2, &[("$share/g/t/+", 1)])]); } }
+        Act::SubPlainAndSharedA => { if let Some(c) = a { send(r, c, vec![subscribe(5, &[("t/x", 1), ("$share/g/t/x", 1)])]); } }
         Act::PubB(q) => { if let Some(c) = b { send(r, c, vec![publish("t/x", q, if q == 0 { 0 } else { 1 }, "m", false)]); } }
         Act::PubBUnicode => { if let Some(c) = b { send(r, c, vec![publish("\u{e9}t/\u{1F600}", 0, 0, "m", false)]); } }
         Act::AckA(k) => { if let Some(c) = a { send(r, c, vec![puback(k)]); } }
